@@ -246,7 +246,26 @@ def check_cases(ctx, cases, results):
                                       f"received {got.get(pname)}, expected {w} ({case['info']})", {"layer": "obj", "case": case})
 
 
-def campaign(ctx):
+def gen_cases(ctx):
     rng = ctx.rng
-    cases = [gen_pynode_case(rng, f"y{i}") for i in range(ctx.scale(10, 80))] + [gen_dir_case(rng, f"w{i}") for i in range(ctx.scale(6, 50))]
-    check_cases(ctx, cases, run_cases(cases, nproc=8 if ctx.thorough else 4))
+    return [gen_pynode_case(rng, f"y{i}") for i in range(ctx.scale(10, 80))] + [gen_dir_case(rng, f"w{i}") for i in range(ctx.scale(6, 50))]
+
+
+def start(ctx):
+    """generate the cases (all random draws happen here) and run them in the background; `finish` judges them"""
+    from concurrent.futures import ThreadPoolExecutor as _T
+    cases = gen_cases(ctx)
+    ex = _T(max_workers=1)
+    return cases, ex, ex.submit(run_cases, cases, 6 if ctx.thorough else 3)
+
+
+def finish(ctx, handle):
+    cases, ex, fut = handle
+    try:
+        check_cases(ctx, cases, fut.result())
+    finally:
+        ex.shutdown(wait=False)
+
+
+def campaign(ctx):
+    finish(ctx, start(ctx))
